@@ -327,7 +327,7 @@ pub fn run(ctx: &Ctx) {
     drive_enum(ctx, &SUBS[0], (crate::golden::golden().core.len() * 2) as u64);
     let max_len = if ctx.quick() { 5 } else { 6 };
     drive_enum(ctx, &SUBS[1], alphabet_size(max_len));
-    drive_random(ctx, &SUBS[2], ctx.n(40_000, 2_000_000), 1600);
+    drive_random(ctx, &SUBS[2], ctx.n(40_000, 20_000_000), 1600);
 }
 
 pub fn finish(ctx: &Ctx) -> i32 {
